@@ -6,8 +6,8 @@ VERIF = os.path.dirname(os.path.dirname(os.path.abspath(__file__)))
 
 CHECKS = {
  'C02': dict(
-    technique='Formula.tla: token automaton generating every well-formed formula up to N tokens plus a reference recursive-descent parser/evaluator over exact rationals (operator meaning from ExcelValues.tla), model-checked by TLC; every formula compiled and evaluated by pycel in several spellings',
-    text='TLC enumerates all formulas of the grammar (literals incl. doubled quotes/backslash/newline/braces, references, prefix -/+, postfix %, all binary operators, parentheses, SUM/IF calls) up to 5 tokens (7 thorough, sampled to 12), checks PrintParse and RedundantParens on the reference semantics and exports (tokens, value); each is rendered with whitespace/case/extra-parentheses variants, compiled with ExcelFormula and evaluated directly and inside a workbook; the result must equal the reference value.',
+    technique='Formula.tla: token automaton generating every well-formed formula up to N tokens plus a reference recursive-descent parser/evaluator (values and references) over exact rationals (operator meaning from ExcelValues.tla), model-checked by TLC; every formula compiled and evaluated by pycel in several spellings',
+    text='TLC enumerates all formulas of the grammar (literals incl. doubled quotes/backslash/newline/braces, references, prefix -/+, postfix %, all binary operators, parentheses, SUM/IF calls, ROW/COLUMN/OFFSET/LEN with reference positions kept apart from value positions, references into sheets whose names hold $ ' " or look like generated code) up to 5 tokens (7 thorough; nests of calls up to 13, sampled beyond), checks PrintParse and RedundantParens on the reference semantics and exports (tokens, value); each is rendered with whitespace/case/extra-parentheses variants, compiled with ExcelFormula and evaluated directly and inside a workbook; the result must equal the reference value.',
     note='values past the 32-bit guard, non-dyadic comparisons, 0^0, SUM of typed-in text/logicals, two-argument IF are skipped and counted',
     ref='§3 C02'),
  'C01': dict(
@@ -17,7 +17,7 @@ CHECKS = {
     ref='§3 C01'),
  'C03': dict(
     technique='Persist.tla (text file, pickle file, pickle-reuse rule with named deviation DEV_StalePickle, extension search order) checked by TLC; every history of the code-rule model executed on real files; attribution of known findings by the deviation model; lock-step original/loaded histories in same process, fresh thread and fresh process; Reload.tla (save/load at any point of an Engine history) toured on real models',
-    text='TLC checks LoadedEquiv and SaveIdempotent for the repaired protocol and exports all histories (depth <= 5) of to_file/from_file/set_value/extra_data edits for both rules; each is executed on real yml/json/pkl files: a model loaded from a current file must equal the live model (values of all saved cells, extra_data), an unchanged re-save must be byte-identical; a discrepancy is D9 only if the deviation model predicts exactly the observed content.  Content fidelity over a 55-value adversarial pool x 3 formats (D10 by predictor), random post-load histories in lock-step on random workbooks (cycles on/off; same process, new thread, new process), save(load(f)) content, metadata and source-hash survival; Reload.tla composes to_file/from_file with the Engine model (same cell map, complete edges, coherent cache after the eager range evaluation) and every transition is executed on real models.',
+    text='TLC checks LoadedEquiv and SaveIdempotent for the repaired protocol and exports all histories (depth <= 5) of to_file/from_file/set_value/extra_data edits for both rules; each is executed on real yml/json/pkl files: a model loaded from a current file must equal the live model (values of all saved cells, extra_data), an unchanged re-save must be byte-identical, saving the loaded model again must reproduce the content it was read from (ResaveReproduces); a discrepancy is D9 only if the deviation model predicts exactly the observed content.  Content fidelity over a 55-value adversarial pool x 3 formats (D10 by predictor), random post-load histories in lock-step on random workbooks (cycles on/off; same process, new thread, new process), save(load(f)) content, metadata and source-hash survival; Reload.tla composes to_file/from_file with the Engine model (same cell map, complete edges, coherent cache after the eager range evaluation) and every transition is executed on real models.',
     note='content abstracted to input constants + metadata in the model; yaml/json byte encoding exercised by the pool, not modelled; quick tier samples 1500 protocol histories per text format',
     ref='§3 C03'),
  'C04': dict(
